@@ -221,6 +221,17 @@ func (fr *Frame) applyContract(in ssa.Instruction, callee *ssa.Function, sp *Fun
 				continue
 			}
 			cenv := e.calleeEnv(callee, sp, args, binds, fr.st, nil)
+			cenv.old = e.entry
+			if fr.depth == 0 {
+				// the caller's own names (parameters and named locals) are visible too, prefixed
+				// names of the callee win on a clash; "caller.x" always means the caller's x
+				benv := e.baseEnv(fr, fr.st)
+				for k, v := range benv.vars {
+					if _, clash := cenv.vars[k]; !clash {
+						cenv.vars[k] = v
+					}
+				}
+			}
 			for k, v := range e.params {
 				if _, clash := cenv.vars[k]; !clash {
 					cenv.vars[k] = v
@@ -268,6 +279,10 @@ func (fr *Frame) applyContract(in ssa.Instruction, callee *ssa.Function, sp *Fun
 	for _, en := range sp.Ensures {
 		t, err := env2.evalBool(en.E)
 		if err != nil {
+			// clauses about the callee's own local variables tell a caller nothing
+			if m := reUnknownID.FindStringSubmatch(err.Error()); m != nil && callee != nil && e.L.isLocalName(callee, m[1]) {
+				continue
+			}
 			e.errs = append(e.errs, fmt.Sprintf("%s: %v", en.Line, err))
 			continue
 		}
